@@ -154,8 +154,8 @@ def run(run):
         n, m, rows = tab
         if not run.time_left():
             break
-        objs = ['o%d' % ((i * 7 + 3) % 101) for i in range(n)]
-        props = ['p%d' % ((j * 5 + 2) % 103) for j in range(m)]
+        objs = ['o%d' % ((i * 7 + 3) % 10007) for i in range(n)]
+        props = ['p%d' % ((j * 5 + 2) % 10009) for j in range(m)]
         bools = [tuple(bool((r >> j) & 1) for j in range(m)) for r in rows]
         line = defs.dnew_line(0, objs, props, bools)
         with guard(run, 'Context <-> Definition round trip', [line, 'dctx 0']):
@@ -193,5 +193,16 @@ def run(run):
             c3 = Context(objs, props, [tuple(bool((r >> j) & 1) for j in range(m)) for r in rows2])
             if (c3 == c) or not (c3 != c):
                 run.fail('contexts with different tables compare equal', None, None, [line])
+            props4 = list(props)
+            props4[rng.randrange(m)] = 'renamed'
+            c4 = Context(objs, props4, bools)
+            c5 = Context(objs, props + ['extra'], [tuple(r) + (False,) for r in bools])
+            if (c4 == c) or not (c4 != c) or (c5 == c) or not (c5 != c):
+                run.fail('contexts with different property tuples compare equal', None, None, [line])
+            d.shape, d.fill_ratio            # read, edit, read again: cached attributes must not go stale
+            d.add_object('fresh-object', [props[0]])
+            c6 = Context(*d)
+            if tuple(c6.shape) != tuple(d.shape) or c6.fill_ratio != d.fill_ratio or tuple(d.shape) != (n + 1, m):
+                run.fail('shape / fill_ratio of an edited definition differ from its context', [tuple(d.shape), str(d.fill_ratio)], [tuple(c6.shape), str(c6.fill_ratio)], [line])
         run.case(line, gen.nontrivial(tab))
         run.count('context<->definition')
